@@ -408,8 +408,9 @@ func cmdCheck(args []string) int {
 				}
 				curCase := filepath.Join(statsDir, fmt.Sprintf("%s-%d-%d.case.json", id, os.Getpid(), i))
 				raceLog := filepath.Join(statsDir, fmt.Sprintf("%s-%d-%d.race", id, os.Getpid(), i))
+				env = append(env, "VERIF_CURCASE="+curCase)
 				if spec.Race {
-					env = append(env, "VERIF_CURCASE="+curCase, "GORACE=halt_on_error=1 exitcode=66 log_path="+raceLog)
+					env = append(env, "GORACE=halt_on_error=1 exitcode=66 log_path="+raceLog)
 				}
 				timeout := 40 * time.Minute
 				if *tier == "thorough" {
@@ -441,6 +442,17 @@ func cmdCheck(args []string) int {
 						so.race = rp
 					} else {
 						so.race = &harness.Replay{Property: id, Kind: "none", Clause: "data-race", Message: raceSummary(report), Program: json.RawMessage("null")}
+					}
+				}
+				if so.race == nil && st == nil && res.exit != 0 && !res.timedOut && strings.Contains(res.out, "/repo/") &&
+					(strings.Contains(res.out, "panic:") || strings.Contains(res.out, "fatal error:")) {
+					// the process died from a panic/fatal error outside the goroutine running
+					// the case (e.g. in the background writer): attribute it to the running case
+					msg := crashSummary(res.out)
+					if rp, err := harness.LoadReplay(curCase); err == nil {
+						rp.Clause = "process-crash"
+						rp.Message = msg
+						so.race = rp
 					}
 				}
 				os.Remove(curCase)
@@ -599,6 +611,30 @@ func cmdCheck(args []string) int {
 		return 2
 	}
 	return 0
+}
+
+// crashSummary extracts the panic message and the first library frames.
+func crashSummary(out string) string {
+	lines := strings.Split(out, "\n")
+	msg := ""
+	var frames []string
+	for _, l := range lines {
+		t := strings.TrimSpace(l)
+		if msg == "" && (strings.HasPrefix(t, "panic:") || strings.HasPrefix(t, "fatal error:")) {
+			msg = t
+			continue
+		}
+		if msg != "" && strings.HasPrefix(t, "/repo/") {
+			if i := strings.Index(t, " +0x"); i > 0 {
+				t = t[:i]
+			}
+			frames = append(frames, strings.TrimPrefix(t, "/repo/"))
+			if len(frames) >= 4 {
+				break
+			}
+		}
+	}
+	return "the test process died: " + msg + " [" + strings.Join(frames, " < ") + "]"
 }
 
 // raceSummary extracts the access sites of the first race report.
